@@ -13,7 +13,7 @@ import (
 )
 
 func init() {
-	for _, f := range []string{"C01", "C02", "C05", "C06", "C07", "C10", "C11", "C12", "C13e", "C15", "C17w", "C18", "smoke"} {
+	for _, f := range []string{"C01", "C02", "C05", "C06", "C06f", "C07", "C10", "C11", "C12", "C13e", "C15", "C17w", "C18", "smoke"} {
 		f := f
 		registerScenario(f, func(w *world) { scenarioData(w, f) })
 	}
@@ -118,6 +118,14 @@ func scenarioData(w *world, flavor string) {
 	case "C06", "C07":
 		xo.reliableOrderedOnly = false
 		xo.dcep = true
+		o.maxLossPPM = 600000
+		tail = true
+	case "C06f":
+		// partially reliable streams that carry mostly fragmented messages under heavy loss: a message is
+		// partly in flight, partly pending for long stretches (KF1) and becomes abandoned while marks are set
+		xo.reliableOrderedOnly = false
+		xo.prFragments = true
+		xo.maxMsgs = 30
 		o.maxLossPPM = 600000
 		tail = true
 	case "C10":
